@@ -76,6 +76,8 @@ impl FangProc for DumpProc {
     #[allow(clippy::manual_async_fn)]
     fn bite<'b>(&'b self, req: &'b mut Request) -> impl std::future::Future<Output = Response> + Send {
         let text = dump_request(req).join("\n");
-        async move { Response::OK().with_text(text).with_headers(|h| h.x("X-Dump", "1")) }
+        // (wave 17) the method the fang saw also goes into a header: a HEAD has no body to carry the dump
+        let m = req.method.as_str().to_string();
+        async move { Response::OK().with_text(text).with_headers(|h| h.x("X-Dump", "1").x("X-Dump-Method", m)) }
     }
 }
